@@ -232,7 +232,63 @@ def is_selector_call(ctx, func, e, sel=None):
         kind, recv, nm = call_name(e)
         if kind == 'attr' and ctx.canon(recv, func) == 'E.C' and nm in deriv(ctx).selectors:
             return nm if sel is None else (nm == sel)
+    if isinstance(e, ast.Name) and isinstance(e.ctx, ast.Load) and hasattr(e, 'parent'):
+        v = _fresh_selector_local(ctx, func, e)
+        if v is not None:
+            return is_selector_call(ctx, func, v, sel)
     return None if sel is None else False
+
+
+def _fresh_selector_local(ctx, func, name_node):
+    """`xs = C.hopeful()` ... `for c in xs:` - the selector call a local stands for, when the local is bound once, by that call, and no
+    statement that changes a candidate's status (or calls a local helper that does) lies on a path from the binding to this use:
+    the list is then what the call would return here."""
+    if not hasattr(func, 'assigns'):
+        return None
+    defs = func.assigns().get(name_node.id, [])
+    if len(defs) != 1 or name_node.id in func.params:
+        return None
+    val, dst = defs[0]
+    if not (isinstance(val, ast.Call) and isinstance(dst, ast.Assign) and dst.value is val):
+        return None
+    kind, recv, nm = call_name(val)
+    if not (kind == 'attr' and ctx.canon(recv, func) == 'E.C' and nm in deriv(ctx).selectors):
+        return None
+    from ..cfg import cfg_of as _cfg_of
+    cfg = _cfg_of(func)
+    st = name_node
+    while st is not None and st not in cfg.of_stmt:
+        st = getattr(st, 'parent', None)
+    if st is None or dst not in cfg.of_stmt:
+        return None
+    dn, un = cfg.of_stmt[dst], cfg.of_stmt[st]
+    fwd = cfg.reach([dn], avoid=[un, dn])
+    # nodes from which the use is reachable without passing the binding again
+    pred = {}
+    for x in cfg.nodes:
+        for t, lab in x.succ:
+            pred.setdefault(t, []).append(x)
+    back, work = set(), [un]
+    while work:
+        x = work.pop()
+        for p_ in pred.get(x, []):
+            if p_ not in back and p_ is not un and p_ is not dn:
+                back.add(p_)
+                work.append(p_)
+    between = (fwd & back) - {dn}
+    # is the use evaluated again without the local being re-bound (an enclosing loop that does not contain the binding)?  The
+    # iterable of a `for` is evaluated once per execution of the statement: its own back edge is not a re-evaluation.
+    own_for = isinstance(st, ast.For) and st.iter is name_node
+    starts = [t for t, lab in un.succ if (lab is False if own_for else lab != 'exc')]
+    again = cfg.reach(starts, avoid=[dn], include_start=True)
+    if un in again:
+        between |= {x for x in again if x in back or x is un} - {un}
+        if own_for:
+            between |= {x for x in cfg.nodes_in(st) if x is not un}
+    for x in between:
+        if node_effects(ctx, func, x):
+            return None
+    return val
 
 
 def strip_sorters(ctx, func, e):
